@@ -284,3 +284,60 @@ Proof.
   munfold. cbv zeta. rcases; try lra.
   all: nameq (1 - (1 - 0) * (1 - 0) - 1 / 2) (1 - 1 / 2 + 1 / 1000000000); intros ((? & ?) & _); nra.
 Qed.
+
+(* ---------------------------------------------------------------- F-C12-1, exactly *)
+Lemma cmy_chan_K1 v : cmy_chan 1 v = 0.
+Proof. unfold cmy_chan. rewrite (ltb_false 1 1) by lra. reflexivity. Qed.
+
+(* for all six modes: the CMYK result is in range IFF the source black is 1 or no blended RGB channel exceeds
+   1 - K of the source *)
+Theorem wrap_cmyk_range_iff f cb cs :
+  unit (snd cs) -> unit3 (f (cmyk2rgb NR cb) (cmyk2rgb NR cs)) ->
+  (unit4 (wrap_cmyk NR f cb cs) <->
+   (snd cs = 1 \/ le3 (f (cmyk2rgb NR cb) (cmyk2rgb NR cs)) (1 - snd cs))).
+Proof.
+  intros Hk Hu. split.
+  - intro H. unfold wrap_cmyk in H. cbv zeta in H. rewrite rgb2cmy_chan in H.
+    destruct (f (cmyk2rgb NR cb) (cmyk2rgb NR cs)) as [[r g] b]. destruct cs as [[[c' m'] y'] k].
+    cbn [snd] in *. unfold map3, unit4 in H. destruct H as (Hr & Hg & Hb & _).
+    unfold unit in *. cbn [T NR] in *.
+    destruct (Req_dec k 1) as [E|E]; [left; exact E | right].
+    assert (Hk1 : 0 <= k < 1) by lra. unfold le3.
+    pose proof (cmy_chan_negative_iff k r Hk1) as [_ Nr]. pose proof (cmy_chan_negative_iff k g Hk1) as [_ Ng].
+    pose proof (cmy_chan_negative_iff k b Hk1) as [_ Nb].
+    repeat split; apply Rnot_lt_le; intro X; [apply Nr in X | apply Ng in X | apply Nb in X]; lra.
+  - intros [E|L]; [|apply wrap_cmyk_range; assumption].
+    unfold wrap_cmyk. cbv zeta. rewrite rgb2cmy_chan.
+    destruct (f (cmyk2rgb NR cb) (cmyk2rgb NR cs)) as [[r g] b]. destruct cs as [[[c' m'] y'] k].
+    cbn [snd] in *. subst k. unfold map3, unit4. rewrite !cmy_chan_K1. unfold unit. repeat split; lra.
+Qed.
+
+Theorem range_cmyk_iff m cb cs : unit4 cb -> unit4 cs ->
+  (unit4 (blend_cmyk NR m cb cs) <->
+   (snd cs = 1 \/ le3 (blend_rgb NR m (cmyk2rgb NR cb) (cmyk2rgb NR cs)) (1 - snd cs))).
+Proof.
+  intros Hb Hs. unfold blend_cmyk. apply wrap_cmyk_range_iff.
+  - destruct cs as [[[c' m'] y'] k]. cbn [snd]. apply Hs.
+  - apply range_rgb; apply cmyk2rgb_unit; assumption.
+Qed.
+
+(* the converted colours themselves fit under their own black *)
+Lemma cmyk2rgb_le c : unit4 c -> le3 (cmyk2rgb NR c) (1 - snd c).
+Proof.
+  destruct c as [[[c' m] y] k]. unfold unit4, unit, le3. intros (? & ? & ? & ?). munfold. cbn [snd].
+  repeat split; nra.
+Qed.
+Lemma le3_mono c a b : le3 c a -> a <= b -> le3 c b.
+Proof. destruct c as [[r g] b']. unfold le3. intros (? & ? & ?) ?. cbn [T NR] in *. repeat split; lra. Qed.
+
+(* darker / lighter colour pick one of the two converted colours: in range as soon as the source black does not
+   exceed the backdrop black *)
+Theorem range_cmyk_darker_lighter m cb cs : m = DarkerColor \/ m = LighterColor ->
+  unit4 cb -> unit4 cs -> snd cs <= snd cb -> unit4 (blend_cmyk NR m cb cs).
+Proof.
+  intros Hm Hb Hs Hk. apply range_cmyk_iff; try assumption. right.
+  pose proof (cmyk2rgb_le cb Hb) as Lb. pose proof (cmyk2rgb_le cs Hs) as Ls.
+  assert (Lb' : le3 (cmyk2rgb NR cb) (1 - snd cs)) by (eapply le3_mono; [exact Lb | lra]).
+  destruct Hm as [-> | ->]; cbn [blend_rgb]; unfold darker_color_rgb, lighter_color_rgb;
+    match goal with |- context [if ?c then _ else _] => destruct c end; assumption.
+Qed.
